@@ -340,8 +340,10 @@ func genKVOp(t *rapid.T, w weights, big bool) kvOp {
 		if uni(t, "walkflags", 3) == 0 {
 			o.Flags = flagChoices[uni(t, "flags", len(flagChoices))]
 		}
-		if uni(t, "abort", 4) == 0 {
-			o.Abort, o.Flags = 1+uni(t, "abortat", 5), 0
+		if uni(t, "abort", 3) == 0 {
+			// BR_ABORT at a drawn record, alone or together with a flag change for that record
+			o.Abort = 1 + uni(t, "abortat", 5)
+			o.AFlags = flagChoices[uni(t, "aflags", len(flagChoices))]
 		}
 	case "defrag":
 		o.Force = uni(t, "force", 2) == 0
@@ -410,6 +412,9 @@ func TestQdbModel(t *testing.T) {
 		}
 		if sum.Browses > 0 {
 			r.Class("browse")
+		}
+		if sum.AbortWithFlag > 0 {
+			r.Class("no_browse_with_abort")
 		}
 		pbt.AddExtra("model_ops", int64(sum.Ops))
 		pbt.AddExtra("model_overwrites", int64(sum.Overwrites))
